@@ -235,6 +235,11 @@ def a3_terminal_parity(ck):
     v2_terminal_values(ck)
     # the terminal test must be about the side to move whatever the perspective is: the shortcut's king (V1)
     v1_bypass(ck)
+    # mate / stalemate detection reads the attack map of either colour: its construction treats the colours alike (C10's B5-B7)
+    from .c10 import b5_is_check, b6_from_occupancy, b7_dispatch
+    b5_is_check(ck)
+    b6_from_occupancy(ck)
+    b7_dispatch(ck)
 
 
 def _is_square_term(prog, body, t):
